@@ -212,6 +212,32 @@ theorem C05_file_roundtrip (pNum : String → R) (hpn : ∀ m : ℕ, pNum (Nat.r
       rw [hfr, ih frs (fun f hf => hn f (List.mem_cons_of_mem _ hf)) (by simpa using hlen)]
       simp
 
+/-- "via the file", end to end for the global-cutoff routine: the frames written for any sequence of
+snapshots (`keys` = their squared-distance matrices), read back by successive calls, give the expected tables
+of exactly the lists characterised by `C05_cutoff` -/
+theorem C05_cutoff_via_file {K : Type} [Field K] [LinearOrder K] [IsStrictOrderedRing K] (pNum : String → R)
+    (hpn : ∀ m : ℕ, pNum (Nat.repr m) = (m : R))
+    (asort : (ℕ → K) → List ℕ → List ℕ) (hs : IsArgsort asort) (n : ℕ) (keys : List (ℕ → ℕ → K)) (rc2 : K)
+    (nmaxs : List ℕ) (hlen : nmaxs.length ≤ keys.length) (rest : Lines) :
+    Impl.readFrames pNum ((keys.flatMap fun key => Impl.cutoffFrame asort key rc2 n) ++ rest) n nmaxs =
+      (List.zipWith Spec.expectedTable nmaxs (keys.map fun key => Impl.cutoffLists asort key rc2 n),
+       ((keys.drop nmaxs.length).flatMap fun key => Impl.cutoffFrame asort key rc2 n) ++ rest) := by
+  have h : (fun key => Impl.cutoffFrame asort key rc2 n)
+      = fun key => render (Impl.cutoffLists asort key rc2 n) :=
+    funext fun key => C05_cutoff_written asort hs key rc2 n
+  rw [h]
+  have hfm : ∀ l : List (ℕ → ℕ → K), (l.flatMap fun key => render (Impl.cutoffLists asort key rc2 n))
+      = (l.map fun key => Impl.cutoffLists asort key rc2 n).flatMap render := by
+    intro l; rw [List.flatMap_map]
+  rw [hfm, hfm, List.map_drop]
+  have := C05_file_roundtrip pNum hpn n (keys.map fun key => Impl.cutoffLists asort key rc2 n)
+    (by
+      intro fr hfr
+      obtain ⟨key, _, rfl⟩ := List.mem_map.mp hfr
+      simp [Impl.cutoffLists])
+    nmaxs (by simpa using hlen) rest
+  exact this
+
 /-- a file whose header does not contain `neighborlist` (weights, Voronoi areas …): values are returned
 as they are — no `-1` shift — with the same cn / padding / truncation layout -/
 theorem C05_weights_branch (pNum : String → R) (hdr : Line) (hh : isNeighborList hdr = false)
